@@ -163,6 +163,17 @@ def run(R):
     f = repo.func('pxssh:pxssh.login')
     g = f.cfg
     arrays = extract_arrays(f)
+    # answers looked up in a table that is re-bound while the dialogue runs (`answers = dict(... if q > i)` retiring what was used): which answer
+    # can still be given at which point is a question about the table's contents over time -- not decided by the rules below
+    nb_ = {}
+    for st_ in iter_nodes(f.node):
+        if isinstance(st_, (ast.Assign, ast.AugAssign)):
+            for t_ in assigned_names(st_):
+                nb_[t_] = nb_.get(t_, 0) + 1
+    dyn_ = [k_ for k_ in calls_in(f.node) if callee_last(k_) in ('sendline', 'send') and k_.args and isinstance(k_.args[0], ast.Subscript)
+            and isinstance(k_.args[0].value, ast.Name) and nb_.get(k_.args[0].value.id, 0) > 1]
+    if dyn_:
+        raise AnalysisError('login: %s sends an entry of a table that is re-bound during the dialogue: cannot be decided' % norm(dyn_[0]))
     with R.clause('D1', 'IDX', floor=18, desc='dispatch on the expect index agrees with the kind of the pattern at that index') as c:
         used = [(n, k.args[0].id) for n, k in cfg_nodes_with_call(f, lambda k: callee_last(k) == 'expect' and k.args and isinstance(k.args[0], ast.Name)
                                                                    and k.args[0].id in arrays)]
